@@ -45,9 +45,9 @@ package machine
 
 //@ func MapClear
 //@   ensures [map is empty] forall k K :: !has(m, k)
-//@   ensures [length zero] m != nil ==> len(m) == 0
 //@   modifies map(m)
 //@   loop 1 invariant [every remaining key is still to be produced] forall k K :: has(m, k) ==> todo[k]
+//@   loop 1 invariant [only this map is touched] modifies_only(map(m))
 
 //@ ghost func dec(x uint64) string
 //@ assume func fmt.Sprintf (format, a)
